@@ -8,7 +8,7 @@ from pyvc.spec import ContractSet
 
 HOME = os.environ.get('VERIF_HOME', os.path.dirname(os.path.dirname(os.path.abspath(__file__))))
 
-_MODULES = ['ghosts', 'externals', 'datatypes', 'consensus', 'coinstate', 'manager', 'network', 'mining', 'pow', 'local_peer', 'framing', 'lemmas']
+_MODULES = ['ghosts', 'externals', 'datatypes', 'consensus', 'coinstate', 'manager', 'network', 'mining', 'pow', 'local_peer', 'framing', 'codec', 'lemmas']
 _cset = None
 
 
@@ -32,6 +32,7 @@ def make_verifier(seed=0, timeout_ms=20000):
     v.structural_classes = set(STRUCTURAL)
     v.key_projection = {'Transaction': _tx_key}
     v.opaque_eq_classes = {'Block', 'Transaction', 'BlockHeader'}
+    v.force_inline = {'skepticoin.serialization.stream_serialize_list', 'skepticoin.serialization.stream_deserialize_list'}
     from . import state
     state.install(v)
     return v
@@ -49,6 +50,13 @@ def _tx_key(eng, x, st):
 
 # level / notes per property; functions and lemmas come from the props tags on the contracts
 PROPS = {
+    'C07': dict(level='proof', native=['native.c07'],
+                explanation="per consensus class (8 classes, 2 tag dispatchers, the generic list codec inlined per element "
+                            "class): the encoder appends exactly enc(self); whatever a decoder returns, re-encoding it gives "
+                            "exactly the bytes consumed (one encoding per value); ids cached at decode time and the four id "
+                            "functions are sha256d of that encoding (proof). The VLQ arithmetic, encode-then-decode equality, "
+                            "wire messages and the sqlite store are exercised by a bounded run (reported under `bounded`, not "
+                            "counted as proved)"),
     'C11': dict(level='proof', native=['native.c11'],
                 explanation="MessageReceiver.receive against the framing specification parse(): delivered payloads and the "
                             "pending residue are a function of (pending bytes + chunk); the recursive call uses the "
